@@ -9,13 +9,19 @@ CFG = dict(
                    "unresolved iff the name-based specification finds two different changes, else yields the specified "
                    "value, Resolved iff no removal and no conflict (C05_resolve_cell, C05_resolved_flag), and a resolved "
                    "row never contains an invented value (C05_never_silent, unconditional); table level under the "
-                   "same-layout guard: see props/C05.v; the known findings as _refuted witnesses. Model tied to "
+                   "same-layout guard (all tables share the duplicate-free columns, key first), ANY number of branches: "
+                   "the result holds exactly the rows the specification prescribes, strictly ascending by key "
+                   "(C05_merge_guard_partial, C05_result_sorted), order-independence under any permutation (C05_order), "
+                   "untouched rows/cells (C05_untouched_*), and for two branches identity, idempotence and disjoint edits "
+                   "(C05_identity, C05_identity_left, C05_idem, C05_disjoint); the known findings F1, F2, D1-D4 as "
+                   "_refuted witnesses. Model tied to "
                    "pkg/diff + pkg/merge + cmd/wrgl merge by differential execution with an independent name-based oracle.",
         level_note="Theorems are about coq/model/{ColDiff,Merge}.v (hand transliteration); the diff is modelled by its "
                    "specification (C04), row/key sums by the cell sequences (hash injectivity), the discarded-key set "
                    "as a set (C20), the collector's sorter as stable sort + dedupe on the configured key positions (C19). "
-                   "N=3 at table level, column renames and the interactive resolution path are covered by "
-                   "correspondence only.",
+                   "Table-level laws when a branch changes the layout or the key is not first (where the code deviates: "
+                   "known findings), keyless tables, the policy 'accept the proposed ResolvedRow', column renames and the "
+                   "interactive resolution path are covered by correspondence only.",
         rule="fixed witnesses (known findings F1/F2/D1-D4, repository tests, laws); exhaustive: every pair of branches "
              "over a 2-row (id,v) base with cell alphabet {a,b} (each branch keeps/removes/edits each row, may add row 3) "
              "x 3 caller policies, plus column scripts (remove/swap/rename/add) on a 3-column base; random edit scripts "
